@@ -105,6 +105,19 @@ let handle line =
        | None -> "NOTFORWARDED" | Some v -> sc v)
   | ["provides"; minor; m; n] ->
       if provides (nat_of_int (int_of_string minor)) (cs m) (cs n) then "1" else "0"
+  | ["flagsof"; k; req; d; tn; nk; c; strict; force; usedef; sdn; ua; fc; udk] ->
+      let kd = (match k with "0" -> KV1 | "1" -> KV2 | "2" -> KDC | "3" -> KTD | _ -> KMS) in
+      let df = (match d with "0" -> DNo | "1" -> DNone | _ -> DVal) in
+      let m = { m_required = bool_of_tok req; m_dflt = df; m_type_null = bool_of_tok tn; m_nullable_kw = bool_of_tok nk; m_constr = bool_of_tok c } in
+      let o = { o_strict = bool_of_tok strict; o_force = bool_of_tok force; o_usedef = bool_of_tok usedef; o_sdn = bool_of_tok sdn;
+                o_ua = bool_of_tok ua; o_fc = bool_of_tok fc; o_udk = bool_of_tok udk } in
+      string_of_int (int_of_n (key (flags_of kd m o))) ^ "\t" ^ (if guard kd m o then "1" else "0")
+  | ["meaning"; k; opt; notreq; e] ->
+      let kd = (match k with "0" -> KV1 | "1" -> KV2 | "2" -> KDC | "3" -> KTD | _ -> KMS) in
+      let ef = (match e with "none" -> ENone | "ellipsis" -> EEllipsis | "None" -> ENoneV | "value" -> EValue | _ -> EFactory) in
+      let r = { r_opt = bool_of_tok opt; r_notreq = bool_of_tok notreq; r_eff = ef } in
+      (if required_rt kd r then "1" else "0") ^ "\t" ^ (if admits_null kd r then "1" else "0") ^ "\t" ^
+      (match reads_default kd r with None -> "-" | Some true -> "default" | Some false -> "none")
   | ["c2s"; s] -> tok_of_str (camel_to_snake u0 (str_of_tok s))
   | ["s2uc"; d; s] -> tok_of_str (s2uc u0 (n_of_int (int_of_string d)) (str_of_tok s))
   | _ -> "BADREQ"
